@@ -70,7 +70,9 @@ func c08(c *ctx) {
 		{[]string{"import (\n fmt \"fmt\"\n strconv \"strconv\"\n)"}, " S fmt.Stringer\n E strconv.NumError"},
 		{[]string{`import os "os"`, `import b "bytes"`, `import bytes "bytes"`}, " F *os.File\n BB bytes.Buffer\n B2 b.Buffer"},
 	}
-	actions := []string{"p.N++", "v := p.N; p.N = v + 1", "v := 2; p.N += v", "p.N = (p.N + 5) % 7", "_ = fmt.Sprintf(\"%s/%d%%\", \"a\", p.N)", "/* a comment */ p.N++", "// a line comment\n p.N++", "s := \"*/\"; _ = s", "if true { p.N++ }", "r := `{}`; _ = r", "p.N += len(\"\\\"{}\")", "func() { p.N++ }()", "", "p.N++ // a comment up to the closing brace", "// nothing but a comment"}
+	actions := []string{"p.N++", "v := p.N; p.N = v + 1", "v := 2; p.N += v", "p.N = (p.N + 5) % 7", "_ = fmt.Sprintf(\"%s/%d%%\", \"a\", p.N)", "/* a comment */ p.N++", "// a line comment\n p.N++", "s := \"*/\"; _ = s", "if true { p.N++ }", "r := `{}`; _ = r", "p.N += len(\"\\\"{}\")", "func() { p.N++ }()", "", "p.N++ // a comment up to the closing brace", "// nothing but a comment",
+		// number literals gofmt rewrites (0X1F -> 0x1F, 1E3 -> 1e3): the generated file must already be what gofmt makes of it
+		"p.N = 0X1F + 0B11 + 0O17", "f := 1E3 + 0XAP1; _ = f"}
 	preds := []string{"true", "p.N >= 0 /* {} */", "len(\"*/\") == 2", "func() bool { return true }()", "!false && (true)",
 		// predicates written over several lines, ending in a newline, or carrying line comments
 		"\n  p.N >= 0\n", "p.N >= 0 // never negative\n", "p.N >= 0 && // first\n  true /* second */\n", "true // to the end of the text", "len(\"//\") == 2"}
